@@ -17,6 +17,25 @@ SIM_NOTE = ("Trusted base: the simulated kernel / psutil.Popen fake "
             "EPERM, job-control stops. Search never proves absence.")
 
 TABLE = {
+ "C01": dict(
+  engine="E1-simworld", category="exploration", design_ref="DESIGN.md §4 C01",
+  technique="model-based property testing: Hypothesis-generated histories (requests, deaths, fault placements, worker behaviours) run on the real daemon over a simulated kernel on virtual time, compared with a reference model of numprocesses",
+  text=("Thousands of generated histories of incr/decr/set/restart/reload, "
+        "worker exits, external kills, deaths at the k-th next kernel call "
+        "and loop/timer steps; after each the daemon is settled and live "
+        "workers (kernel table) are compared with the model's numprocesses, "
+        "generation freshness and the idle-check fixpoint are checked."),
+  note=SIM_NOTE),
+ "C06": dict(
+  engine="E1-simworld", category="exploration", design_ref="DESIGN.md §4 C06",
+  technique="property-based fuzzing of the control protocol (raw bytes, JSON values, envelope corruption, per-command property pools) with a reply-counting oracle on the recording ROUTER stream; scripted-socket model for the client id filter",
+  text=("Each generated message is delivered to the real "
+        "Controller.handle_message; the frames written to the stream for "
+        "that peer are counted and parsed (exactly one object with the "
+        "request id and status ok/error, none for casts), followed by a "
+        "liveness probe. Client: delivery scripts with stale/foreign/"
+        "duplicate replies around CircusClient/AsyncCircusClient.call."),
+  note=SIM_NOTE + " ZMQ framing itself is not exercised (recording fakes)."),
  "C20": dict(
   engine="E2-pure", category="exploration", design_ref="DESIGN.md §4 C20",
   technique="property-based testing: exhaustive small-bound enumeration + Hypothesis-generated write sequences against a files-on-disk tail/size oracle",
